@@ -1,5 +1,5 @@
 import Pcore.Props.C13
-open Pcore.LoaderConc Pcore.Lockset Pcore.LazyCache
+open Pcore.LoaderConc Pcore.Lockset Pcore.LazyCache Pcore.Instantiate
 #print axioms C13_writeonce
 #print axioms C13_writeonce_reach
 #print axioms C13_agree
@@ -9,6 +9,9 @@ open Pcore.LoaderConc Pcore.Lockset Pcore.LazyCache
 #print axioms C13_load_answer
 #print axioms C13_full_fails
 #print axioms C13_miss_window_crash_before_fix
+#print axioms C13_once
+#print axioms C13_once_bound
+#print axioms C13_placeholder_visible
 #print axioms C13_cfg_of_table
 #print axioms C13_lazy_caches
 #print axioms C13_publish_order_fails
